@@ -206,10 +206,14 @@ fn intruder_bytes(kind: usize) -> Vec<u8> {
         4 => rc::data(1, &vec![0x49u8; 600]),  // a full-size-plus DATA block (larger than the default request buffer)
         5 => rc::data(7, &vec![0x49u8; 2000]),
         6 => vec![0, 4, 1],                     // truncated ACK
-        _ => vec![0, 3],                        // truncated DATA
+        7 => vec![0, 3],                        // truncated DATA
+        _ => rc::request(false, b"__no_such_file__", &[]), // a REQUEST that is refused (ERROR 1): no transfer of its own either
     }
 }
-const INTRUDER_KINDS: usize = 8;
+const INTRUDER_KINDS: usize = 9;
+fn intruder_expects_error(kind: usize) -> bool {
+    kind < 6 || kind == 8
+}
 
 struct RunResult {
     viol: Vec<(String, String)>,
@@ -260,7 +264,7 @@ fn run_one(srv: &Srv, cfg: &SrvCfg, scripts: &[Script], same_file: bool, order: 
             *sent_to_listen = true;
             // the listen loop is sequential: its ERROR reply must arrive (malformed datagrams need not be answered)
             let t0 = Instant::now();
-            while it.kind < 6 && t0.elapsed() < BACKSTOP {
+            while intruder_expects_error(it.kind) && t0.elapsed() < BACKSTOP {
                 if let Some((b, _)) = ic.recv_wait(Duration::from_millis(20)) {
                     *intruder_reply = Some(b);
                     break;
@@ -411,7 +415,7 @@ fn run_one(srv: &Srv, cfg: &SrvCfg, scripts: &[Script], same_file: bool, order: 
         }
     }
     if let Some(it) = intr {
-        if intruder_sent_to_listen && it.kind < 6 {
+        if intruder_sent_to_listen && intruder_expects_error(it.kind) {
             match intruder_reply.as_ref().map(|b| rc::decode(b)) {
                 Some(Ok(RPacket::Error { .. })) => {}
                 other => {
@@ -682,6 +686,13 @@ pub fn check(tier: Tier) -> Outcome {
             }
         }
         cells.push(json!({"srv": s.to_json(), "blocking": true}));
+        // the listener bound to :: (dual-stack), the clients on IPv4: endpoints appear as ::ffff:127.0.0.1:port
+        {
+            let mut d = s.clone();
+            d.dual = true;
+            cells.push(json!({"srv": d.to_json(), "scripts": ["D2", "U2"], "same_file": false, "intruder": "none"}));
+            cells.push(json!({"srv": d.to_json(), "scripts": ["Dw", "Ub"], "same_file": false, "intruder": "none"}));
+        }
         // K = 3 with the short scripts
         let three = [Script::D1, Script::U1, Script::D2];
         let triples: Vec<[Script; 3]> = if tier == Tier::Quick { vec![[Script::D1, Script::U1, Script::D1]] } else { vec![[three[0], three[1], three[0]], [three[0], three[0], three[0]], [three[1], three[1], three[0]], [three[0], three[1], three[2]]] };
@@ -696,7 +707,7 @@ pub fn check(tier: Tier) -> Outcome {
     let res = run_cells("c12", cells, &crate::pool_opts(tier));
     let mut out = Outcome::new("C12", "model_checking");
     out.absorb(res, n);
-    out.rule = "client scripts (each step = one datagram and its awaited replies): D2 = 2-block lock-step download, Dw = download with blksize 8 / windowsize 2, U2 = 2-block upload, Ub = upload with blksize 1024, D1/U1 = 1-block transfers. All interleavings of the steps of K = 2 scripts for all 10 unordered pairs (same-file and different-file downloads) and of K = 3 short scripts, in single-port and multi-port mode; plus one intruder datagram (ACK, DATA, ERROR, OACK, oversize and truncated datagrams from a foreign socket, to the listening port or to the victim's transfer port; in single-port mode also from another loopback address that uses the victim's own port number) inserted at every position of every interleaving; thorough additionally re-issues adjacent steps of different clients as overlapped pairs; plus a request whose file operation blocks (named pipe) at every position of another client's download, with a third endpoint's new request right behind it. Oracle: per-client byte identity, source-port discipline (single-port: only the listening port; multi-port: one distinct ephemeral port per transfer), ERROR to the intruder, no leak, no extra datagrams. Every execution is non-trivial (completes >= 2 transfers). states = executions, transitions = datagrams sent.".into();
+    out.rule = "client scripts (each step = one datagram and its awaited replies): D2 = 2-block lock-step download, Dw = download with blksize 8 / windowsize 2, U2 = 2-block upload, Ub = upload with blksize 1024, D1/U1 = 1-block transfers. All interleavings of the steps of K = 2 scripts for all 10 unordered pairs (same-file and different-file downloads) and of K = 3 short scripts, in single-port and multi-port mode (two pairs also with the listener on the dual-stack address :: and IPv4 clients); plus one intruder datagram (ACK, DATA, ERROR, OACK, oversize and truncated datagrams, a refused request, from a foreign socket, to the listening port or to the victim's transfer port; in single-port mode also from another loopback address that uses the victim's own port number) inserted at every position of every interleaving; thorough additionally re-issues adjacent steps of different clients as overlapped pairs; plus a request whose file operation blocks (named pipe) at every position of another client's download, with a third endpoint's new request right behind it. Oracle: per-client byte identity, source-port discipline (single-port: only the listening port; multi-port: one distinct ephemeral port per transfer), ERROR to the intruder, no leak, no extra datagrams. Every execution is non-trivial (completes >= 2 transfers). states = executions, transitions = datagrams sent.".into();
     out.assumptions = vec!["the server's internal thread schedule is the OS's; the driver keeps one datagram in flight (two for overlapped pairs)".into()];
     out
 }
